@@ -308,6 +308,66 @@ Proof.
   - intros a Ma. revert Ma. apply MP_same; reflexivity.
 Qed.
 
+(* ---------------- a NATIVE request that the task's next step will receive ---------------- *)
+Definition NHeld (s : st) (t : tid) : Prop :=
+  (k_must (tasks s t) = true /\ k_msg (tasks s t) = 0) \/
+  (exists f, k_waiter (tasks s t) = Some f /\ f_st (futs s f) = FCanc 0).
+
+Lemma nheld_same m m' t :
+  hcore (tasks m' t) = hcore (tasks m t) ->
+  (forall f, k_waiter (tasks m t) = Some f -> f_st (futs m f) = FCanc 0 -> f_st (futs m' f) = FCanc 0) ->
+  NHeld m t -> NHeld m' t.
+Proof.
+  intros E F. unfold hcore in E. injection E as E1 E2 E3.
+  intros [[H1 H2]|[f [H1 H2]]]; [left; now rewrite E1, E2|right].
+  exists f. split; [now rewrite E3|now apply F].
+Qed.
+
+Lemma nheld_eq m m' t : tasks m' t = tasks m t -> futs m' = futs m -> NHeld m t -> NHeld m' t.
+Proof. intros E F. apply nheld_same; [now rewrite E|]. intros f _. now rewrite F. Qed.
+
+Lemma fut_complete_done m g v f : f_st (futs m f) <> FPend -> f_st (futs (fut_complete m g v) f) = f_st (futs m f).
+Proof.
+  intros Hd. unfold fut_complete. destruct (f_st (futs m g)) eqn:Eg; try reflexivity.
+  destruct (f_waiter (futs m g)); cbn; unfold upd; destruct (Nat.eqb_spec f g); subst; try reflexivity; congruence.
+Qed.
+
+Lemma nheld_task_cancel m u o t : t <> u \/ o = 0 -> k_done (tasks m u) = None \/ t <> u -> NHeld m t -> NHeld (task_cancel m u o) t.
+Proof.
+  intros Ho Hd Hn. unfold task_cancel. destruct (k_done (tasks m u)) eqn:Ed; [exact Hn|].
+  set (m1 := upd_task m u (tk_ncancel (S (k_ncancel (tasks m u))))).
+  assert (H1 : NHeld m1 t).
+  { revert Hn. apply nheld_same; [|auto]. unfold m1. destruct (Nat.eq_dec t u) as [->|Hne];
+      [now rewrite upd_task_eq|now rewrite upd_task_ne]. }
+  assert (H2 : NHeld (upd_task m1 u (tk_must true o)) t).
+  { destruct (Nat.eq_dec t u) as [->|Hne].
+    - destruct Ho as [Ho| ->]; [congruence|]. left. rewrite upd_task_eq. now split.
+    - revert H1. apply nheld_eq; [now rewrite upd_task_ne|reflexivity]. }
+  assert (Ew : k_waiter (tasks m1 u) = k_waiter (tasks m u)) by (unfold m1; now rewrite upd_task_eq).
+  destruct (k_waiter (tasks m u)) as [g|] eqn:Ewu; [|exact H2]. destruct (fut_pending m1 g) eqn:Ep; [|exact H2].
+  unfold fut_pending in Ep. destruct (f_st (futs m1 g)) eqn:Eg; try discriminate.
+  destruct (Nat.eq_dec t u) as [->|Hne].
+  - destruct Ho as [Ho| ->]; [congruence|]. right. exists g. rewrite fut_complete_tasks. split; [exact Ew|].
+    unfold fut_complete. rewrite Eg. destruct (f_waiter (futs m1 g)); cbn; unfold upd; now rewrite Nat.eqb_refl.
+  - revert H1. apply nheld_same; [now rewrite fut_complete_tasks|]. intros f _ Hf. rewrite fut_complete_done; [exact Hf|congruence].
+Qed.
+
+Lemma nheld_deliver_top m c t : NHeld m t -> NHeld (deliver_top m c) t.
+Proof.
+  intros Hn. unfold deliver_top. apply (deliver_inv' (fun a => NHeld a t) c); [| | |exact Hn].
+  - intros self a r u Ha. unfold deliver_task. destruct (k_done (tasks a u)) eqn:Hd; [exact Ha|].
+    destruct (k_must (tasks a u)) eqn:Hm; [exact Ha|]. destruct (_ && _); [|exact Ha].
+    destruct (match k_waiter (tasks a u) with Some f => fut_pending a f | None => true end) eqn:Hw; [|exact Ha].
+    cbn [fst].
+    assert (Hne : t <> u).
+    { intros ->. destruct Ha as [[A _]|[f [A B]]]; [congruence|]. rewrite A in Hw. unfold fut_pending in Hw.
+      rewrite B in Hw. discriminate. }
+    pose proof (nheld_task_cancel a u (S c) t (or_introl Hne) (or_intror Hne) Ha) as H1.
+    destruct (opt_eqb _ u); [|exact H1]. revert H1. apply nheld_eq; reflexivity.
+  - intros a b Ha. revert Ha. apply nheld_eq; reflexivity.
+  - intros a Ha. revert Ha. apply nheld_eq; reflexivity.
+Qed.
+
 (* ====================================================================================================== *)
 (* The relation carried through every helper.  U: the tasks whose own record / current scope the step may
    change (the actor, a task created or retired by the step).  Flags: v -- the three walk fields of every
@@ -325,7 +385,8 @@ Record W (v b f e : bool) (U : list tid) (m m' : st) : Prop := {
   w_h : TO m -> KInv m -> forall t org, ~ In t U -> Held m' t org ->
         Held m t org \/ (b = true /\ OC m t org) \/ (f = true /\ OC m' t org);
   w_run : e = false -> forall u, running m = Some u -> running m' = Some u;
-  w_own : KInv m -> forall u, running m = Some u -> forall org, Held m' u org -> Held m u org
+  w_own : KInv m -> forall u, running m = Some u -> forall org, Held m' u org -> Held m u org;
+  w_nh : KInv m -> forall t, ~ In t U -> NHeld m t -> NHeld m' t
 }.
 
 Lemma W_refl v b f e U m : W v b f e U m m.
@@ -367,6 +428,7 @@ Proof.
   - intros K u Hr org Hh. apply (w_own _ _ _ _ _ _ _ H1 K u Hr).
     apply (w_own _ _ _ _ _ _ _ H2 (w_k _ _ _ _ _ _ _ H1 K) u); [|exact Hh].
     apply (w_run _ _ _ _ _ _ _ H1 eq_refl), Hr.
+  - intros K t Ht Hn. apply (w_nh _ _ _ _ _ _ _ H2 (w_k _ _ _ _ _ _ _ H1 K) t Ht), (w_nh _ _ _ _ _ _ _ H1 K t Ht), Hn.
 Qed.
 
 Lemma W_weaken v b f e U v' b' f' e' U' m m' :
@@ -384,6 +446,7 @@ Proof.
   - intros T K t org Ht Hh. destruct (w_h _ _ _ _ _ _ _ H T K t org) as [A|[[E A]|[E A]]]; auto.
   - intros E. apply H. now apply Ce.
   - apply H.
+  - intros K t Ht. apply H; [exact K|]. intros Hin. apply Ht, I0, Hin.
 Qed.
 
 (* the kinds that occur *)
@@ -426,9 +489,10 @@ Lemma WT_light U m m' :
   treq m m' -> (KInv m -> KInv m') -> (KInv m -> MP m -> MP m') ->
   (forall y, view3 (scopes m' y) = view3 (scopes m y)) ->
   (KInv m -> forall t org, Held m' t org -> Held m t org) ->
+  (KInv m -> forall t, ~ In t U -> NHeld m t -> NHeld m' t) ->
   running m' = running m -> WT U m m'.
 Proof.
-  intros Q K Mp V H R. constructor.
+  intros Q K Mp V H Nh R. constructor.
   - intros T. now apply (TO_treq m).
   - exact K.
   - exact Mp.
@@ -439,6 +503,7 @@ Proof.
   - intros _ Kk t org _ Hh. left. now apply H.
   - intros _ u Hr. now rewrite R.
   - intros Kk u _ org. now apply H.
+  - exact Nh.
 Qed.
 
 Lemma view3_same a b : scopes b = scopes a -> forall y, view3 (scopes b y) = view3 (scopes a y).
@@ -467,6 +532,8 @@ Proof.
   - intros y. reflexivity.
   - intros _. apply held_tasks_futs; [|reflexivity]. intros t. cbn [tasks upd_task set_tasks]. unfold upd.
     destruct (Nat.eqb_spec t u); [subst; apply Hh|reflexivity].
+  - intros _ t _. apply nheld_same; [|auto]. cbn [tasks upd_task set_tasks]. unfold upd.
+    destruct (Nat.eqb_spec t u); [subst; apply Hh|reflexivity].
   - reflexivity.
 Qed.
 
@@ -478,6 +545,7 @@ Proof.
   - intros K. apply (KInv_kq m); [exact K|]. now apply kq_tasks_same.
   - intros _. now apply MP_same.
   - intros _. apply held_tasks_futs; [|exact Ef]. intros t. now rewrite Et.
+  - intros _ t _. apply nheld_eq; [now rewrite Et|exact Ef].
 Qed.
 
 Lemma WT_upd_group U m g h : (forall k, gr_tree (h k) = gr_tree k) -> WT U m (upd_group m g h).
@@ -515,6 +583,8 @@ Proof.
     intros f o _. unfold fut_complete. destruct (f_st (futs m g)) eqn:Eg; auto.
     destruct (f_waiter (futs m g)); cbn; unfold upd; destruct (Nat.eqb_spec f g); auto; subst; cbn; intros E;
       exfalso; apply (Hv o); exact E.
+  - intros _ t _. apply nheld_same; [now rewrite fut_complete_tasks|]. intros f _ Hf.
+    rewrite fut_complete_done; [exact Hf|congruence].
   - apply (kf_running _ _ (kframe_fut_complete m g v)).
 Qed.
 
@@ -536,6 +606,8 @@ Proof.
   - intros y. reflexivity.
   - intros _ t. apply held_same; [reflexivity|]. intros f o _. cbn. unfold upd.
     destruct (Nat.eqb_spec f (nfut m)); [discriminate|auto].
+  - intros K t _. apply nheld_same; [reflexivity|]. intros f Hf. cbn. unfold upd.
+    pose proof (k_alloc _ K t f Hf). destruct (Nat.eqb_spec f (nfut m)); [lia|auto].
   - reflexivity.
 Qed.
 
@@ -630,24 +702,48 @@ Proof.
       rewrite P2. now apply (M t g).
 Qed.
 
-Lemma WT_suspend_fresh U m u f : futs m f = fut0 -> f < nfut m -> WT U m (suspend_on m u f).
+Lemma nheld_suspend_fresh m u f : KInv m -> futs m f = fut0 ->
+  forall t, t <> u -> NHeld m t -> NHeld (suspend_on m u f) t.
 Proof.
-  intros Ef Hf. apply WT_light.
+  intros [_ L] Ef t Hne.
+  assert (Ep : f_st (futs m f) = FPend) by now rewrite Ef.
+  assert (Fresh : forall x, k_waiter (tasks m x) <> Some f).
+  { intros x Hx. pose proof (L x f Hx Ep) as E. rewrite Ef in E. discriminate. }
+  unfold suspend_on. rewrite Ep.
+  set (s1 := upd_fut m f (fun x => mkFut (f_st x) (Some u))).
+  set (s2 := upd_task s1 u (tk_waiter (Some f))).
+  assert (E2 : forall g, g <> f -> futs s2 g = futs m g).
+  { intros g Hg. unfold s2, s1. cbn. unfold upd. destruct (Nat.eqb_spec g f); [contradiction|reflexivity]. }
+  assert (T2 : tasks s2 t = tasks m t).
+  { unfold s2, s1. cbn. unfold upd. destruct (Nat.eqb_spec t u); [contradiction|reflexivity]. }
+  assert (H2 : NHeld m t -> NHeld s2 t).
+  { apply nheld_same; [now rewrite T2|]. intros g Hg Hc. rewrite E2; [exact Hc|]. intros ->. now apply (Fresh t). }
+  destruct (k_must (tasks m u)); [|exact H2]. intros Hn. apply H2 in Hn.
+  revert Hn. apply nheld_same.
+  - rewrite upd_task_ne by exact Hne. now rewrite fut_complete_tasks.
+  - intros g _ Hc. change (futs (upd_task (fut_complete s2 f (FCanc (k_msg (tasks m u)))) u (tk_must false (k_msg (tasks m u)))))
+      with (futs (fut_complete s2 f (FCanc (k_msg (tasks m u))))). rewrite fut_complete_done; [exact Hc|congruence].
+Qed.
+
+Lemma WT_suspend_fresh U m u f : In u U -> futs m f = fut0 -> f < nfut m -> WT U m (suspend_on m u f).
+Proof.
+  intros Hin Ef Hf. apply WT_light.
   - apply treq_suspend_on.
   - intros K. now apply K_suspend_fresh.
   - intros K. now apply MP_suspend_fresh.
   - apply view3_same, (proj1 (ss_suspend_on m u f)).
   - intros K. now apply held_suspend_fresh.
+  - intros K t Ht. apply nheld_suspend_fresh; auto. intros ->. contradiction.
   - apply (proj2 (suspend_on_cnt m u f)).
 Qed.
 
-Lemma WT_park U m u : WT U m (park m u).
+Lemma WT_park U m u : In u U -> WT U m (park m u).
 Proof.
-  unfold park. cbn [new_fut]. unfold new_fut.
+  intros Hin. unfold park. cbn [new_fut]. unfold new_fut.
   set (m1 := fst (new_fut m)).
   apply (WT_trans U m (suspend_on m1 u (nfut m))); [|apply WT_set_ctl].
   apply (WT_trans U m m1); [apply WT_new_fut|].
-  apply WT_suspend_fresh; [unfold m1; cbn; unfold upd; now rewrite Nat.eqb_refl|unfold m1; cbn; lia].
+  apply WT_suspend_fresh; [exact Hin|unfold m1; cbn; unfold upd; now rewrite Nat.eqb_refl|unfold m1; cbn; lia].
 Qed.
 
 
@@ -656,9 +752,10 @@ Lemma W_light e U m m' :
   treq m m' -> (KInv m -> KInv m') -> (KInv m -> MP m -> MP m') ->
   (forall y, view3 (scopes m' y) = view3 (scopes m y)) ->
   (KInv m -> forall t org, Held m' t org -> Held m t org) ->
+  (KInv m -> forall t, ~ In t U -> NHeld m t -> NHeld m' t) ->
   (e = false -> forall u, running m = Some u -> running m' = Some u) -> W true false false e U m m'.
 Proof.
-  intros Q K Mp V H R. constructor.
+  intros Q K Mp V H Nh R. constructor.
   - intros T. now apply (TO_treq m).
   - exact K.
   - exact Mp.
@@ -669,6 +766,7 @@ Proof.
   - intros _ Kk t org _ Hh. left. now apply H.
   - exact R.
   - intros Kk u _ org. now apply H.
+  - exact Nh.
 Qed.
 
 Notation WTE := (W true false false true).
@@ -700,11 +798,12 @@ Proof.
   - intros _. apply MP_same; reflexivity.
   - intros y; reflexivity.
   - intros _. apply held_tasks_futs; [intros t|]; reflexivity.
+  - intros _ t _. apply nheld_eq; reflexivity.
 Qed.
 
-Lemma WT_begin_act U m u : running m = None -> WT U m (begin_act m u).
+Lemma WT_begin_act U m u : In u U -> running m = None -> WT U m (begin_act m u).
 Proof.
-  intros Hr. apply W_light.
+  intros Hin Hr. apply W_light.
   - apply treq_begin_act.
   - intros K. apply (KInv_kq m); [exact K|apply kq_begin_act].
   - intros _ M t f Hm Hw. cbn [begin_act tasks futs set_running upd_task set_tasks] in *. unfold upd in *.
@@ -716,12 +815,13 @@ Proof.
     + left. now split.
     + discriminate.
     + right. now exists f.
+  - intros _ t Ht. apply nheld_eq; [|reflexivity]. cbn. unfold upd. destruct (Nat.eqb_spec t u); [subst; contradiction|reflexivity].
   - intros _ v Hv. congruence.
 Qed.
 
-Lemma WT_incoming U m u fo : running m = None -> WT U m (fst (incoming m u fo)).
+Lemma WT_incoming U m u fo : In u U -> running m = None -> WT U m (fst (incoming m u fo)).
 Proof.
-  intros Hr. apply W_light.
+  intros Hin Hr. apply W_light.
   - apply treq_incoming.
   - intros K. apply (KInv_kq m); [exact K|apply kq_incoming].
   - intros _ M t f Hm Hw. cbn [incoming fst tasks futs set_running upd_task set_tasks] in *. unfold upd in *.
@@ -733,25 +833,26 @@ Proof.
     + left. now split.
     + discriminate.
     + right. now exists f.
+  - intros _ t Ht. apply nheld_eq; [|reflexivity]. cbn. unfold upd. destruct (Nat.eqb_spec t u); [subst; contradiction|reflexivity].
   - intros _ v Hv. congruence.
 Qed.
 
-Lemma WTE_ret U m u r : WTE U m (fst (ret_to_puppet m u r)).
+Lemma WTE_ret U m u r : In u U -> WTE U m (fst (ret_to_puppet m u r)).
 Proof.
-  unfold ret_to_puppet. cbn [fst].
+  intros Hin. unfold ret_to_puppet. cbn [fst].
   set (m1 := match r with RExc e => upd_task m u (tk_held (Some e)) | _ => m end).
   assert (H1 : WT U m m1).
   { unfold m1. destruct r; try apply W_refl. apply WT_upd_task; intros k; reflexivity. }
   apply (WTE_l U m (park m1 u)); [|apply WTE_set_running].
-  apply (WT_trans U m m1); [exact H1|apply WT_park].
+  apply (WT_trans U m m1); [exact H1|now apply WT_park].
 Qed.
 
 Lemma WTE_blocked U m : WTE U m (fst (blocked m)).
 Proof. apply WTE_set_running. Qed.
 
-Lemma WTE_finish_task U m u o : WTE U m (finish_task m u o).
+Lemma WTE_finish_task U m u o : In u U -> WTE U m (finish_task m u o).
 Proof.
-  apply W_light; try discriminate.
+  intros Hin. apply W_light; try discriminate.
   - apply treq_finish_task.
   - intros K. apply (KInv_kq m); [exact K|apply kq_finish_task].
   - intros _ M t f. unfold finish_task. set (m1 := upd_task m u _).
@@ -769,6 +870,11 @@ Proof.
         destruct (Nat.eqb_spec t u); subst; cbn in *; try discriminate.
       - left. now split.
       - right. exists f. now rewrite <- Ef. }
+    destruct (k_group (tasks m u)); apply E; reflexivity.
+  - intros _ t Ht. unfold finish_task. set (m1 := upd_task m u _).
+    assert (Hne : t <> u) by (intros ->; contradiction).
+    assert (E : forall X, tasks X = tasks m1 -> futs X = futs m -> NHeld m t -> NHeld X t).
+    { intros X Et Ef. apply nheld_eq; [|exact Ef]. rewrite Et. unfold m1. now rewrite upd_task_ne. }
     destruct (k_group (tasks m u)); apply E; reflexivity.
 Qed.
 
@@ -793,6 +899,9 @@ Proof.
     intros Hh. apply H1. revert Hh. apply held_same; [now rewrite fut_complete_tasks|].
     intros f o _. unfold fut_complete. destruct (f_st (futs m1 g)); auto.
     destruct (f_waiter (futs m1 g)); cbn; unfold upd; destruct (Nat.eqb_spec f g); auto; discriminate.
+  - intros _ t _ Hn. destruct (k_done (tasks m u)) eqn:Ed.
+    + unfold task_cancel. now rewrite Ed.
+    + apply nheld_task_cancel; auto.
   - apply (kf_running _ _ (kframe_task_cancel m u 0)).
 Qed.
 
@@ -840,13 +949,13 @@ Qed.
 Lemma WT_event_unwait U m e fo : WT U m (event_unwait m e fo).
 Proof. destruct fo; [apply WT_upd_event|apply W_refl]. Qed.
 
-Lemma WT_event_wait U m u e : WT U m (fst (event_wait m u e)).
+Lemma WT_event_wait U m u e : In u U -> WT U m (fst (event_wait m u e)).
 Proof.
-  unfold event_wait. destruct (e_set (events m e)); cbn [fst]; [apply WT_bare_yield|].
+  intros Hin. unfold event_wait. destruct (e_set (events m e)); cbn [fst]; [apply WT_bare_yield|].
   unfold new_fut. cbn [fst].
   match goal with |- _ (suspend_on (upd_event ?m1 ?e ?g) u ?f) => apply (WT_trans U m (upd_event m1 e g)) end.
   - match goal with |- _ (upd_event ?m1 ?e ?g) => apply (WT_trans U m m1) end; [apply (WT_new_fut U m)|apply WT_upd_event].
-  - apply WT_suspend_fresh; [cbn; unfold upd; now rewrite Nat.eqb_refl|cbn; lia].
+  - apply WT_suspend_fresh; [exact Hin|cbn; unfold upd; now rewrite Nat.eqb_refl|cbn; lia].
 Qed.
 
 (* ---------------- scopes: creation, deliveries, flag changes ---------------- *)
@@ -877,6 +986,7 @@ Proof.
   - intros _ _ t org _ Hh. left. revert Hh. apply held_eq; reflexivity.
   - intros _ u Hu. exact Hu.
   - intros _ u _ org. apply held_eq; reflexivity.
+  - intros _ t _. apply nheld_eq; reflexivity.
 Qed.
 
 Lemma KInv_wl m : KInv m -> wait_link m.
@@ -898,6 +1008,7 @@ Proof.
     destruct (D u) as [_ D2]. destruct (D2 org Hh) as [H|[_ Hn]]; [exact H|].
     change (fst (deliver (S (nscope m)) m c c)) with (deliver_top m c) in Hn.
     rewrite (deliver_top_running m c u Hu) in Hn. lia.
+  - intros _ t _. apply nheld_deliver_top.
 Qed.
 
 Lemma WQ_restart U m x : WQ U m (restart m x).
@@ -923,6 +1034,7 @@ Proof.
   - intros _ _ t org _ Hh. left. revert Hh. apply held_eq; reflexivity.
   - intros _ u Hu. exact Hu.
   - intros _ u _ org. apply held_eq; reflexivity.
+  - intros _ t _. apply nheld_eq; reflexivity.
 Qed.
 
 Lemma WC_trans_sc U a b c : WS U a b -> WC U b c -> WC U a c.
@@ -991,6 +1103,7 @@ Proof.
   - intros _ _ t org _ H. left. revert H. apply held_eq; reflexivity.
   - intros _ v Hv. exact Hv.
   - intros _ v _ org. apply held_eq; reflexivity.
+  - intros _ t _. apply nheld_eq; reflexivity.
 Qed.
 
 (* ---------------- leaving a scope ---------------- *)
@@ -1099,6 +1212,7 @@ Proof.
   - intros _ _ t org _ Hh'. left. now apply Hs.
   - intros _ v Hv. now rewrite Xr.
   - intros _ v _ org. apply Hs.
+  - intros _ t Ht. apply nheld_eq; [|exact Xf]. rewrite Xk. destruct (Nat.eqb_spec t u); [subst; elim Ht; now left|reflexivity].
 Qed.
 
 Lemma WQ_exit m c u exc : WQ [u] m (fst (scope_exit m c u exc)).
@@ -1223,6 +1337,7 @@ Proof.
   - intros _ _ t org _ Hh'. left. now apply Hs.
   - intros _ v Hv. now rewrite Xr.
   - intros _ v _ org. apply Hs.
+  - intros _ t Ht. apply nheld_eq; [|exact Xf]. rewrite Xk. destruct (Nat.eqb_spec t u); [subst; elim Ht; now left|reflexivity].
 Qed.
 
 Lemma WC_enter m c u : (s_active (scopes m c) = false -> Enterable m c u) -> WC [u] m (fst (scope_enter m c u)).
@@ -1345,6 +1460,7 @@ Proof.
   - intros _ _ t org _ Hh. left. now apply Hs.
   - intros _ v Hv. now rewrite Xr.
   - intros _ v _ org. apply Hs.
+  - intros _ t Ht. apply nheld_eq; [|exact Xf]. apply Xk. intros ->. apply Ht. now left.
 Qed.
 
 Lemma WQ_spawn m g sf : g_scope (groups m g) < nscope m -> WQ [ntask m] m (fst (spawn_task m g sf)).
@@ -1399,6 +1515,7 @@ Proof.
   - intros _ _ t org _ Hh. left. now apply Hs.
   - intros _ v Hv. now rewrite Xr.
   - intros _ v _ org. apply Hs.
+  - intros _ t Ht. apply nheld_eq; [|exact Xf]. rewrite Xk. destruct (Nat.eqb_spec t ch); [subst; elim Ht; now left|reflexivity].
 Qed.
 
 Lemma WT_WC U a b : WT U a b -> WC U a b.
@@ -1476,8 +1593,8 @@ Proof.
   apply (WQ_trans U m m1); [exact H|apply WT_WQ, WT_set_ctl].
 Qed.
 
-Lemma WQE_ret_after U m m1 u r : WQ U m m1 -> WQE U m (fst (ret_to_puppet m1 u r)).
-Proof. intros H. apply (WQE_l U m m1); [exact H|apply WTE_WQE, WTE_ret]. Qed.
+Lemma WQE_ret_after U m m1 u r : In u U -> WQ U m m1 -> WQE U m (fst (ret_to_puppet m1 u r)).
+Proof. intros Hin H. apply (WQE_l U m m1); [exact H|apply WTE_WQE, WTE_ret; exact Hin]. Qed.
 
 Lemma WQE_wof m u g ws exc : TO m -> u < ntask m -> WQE [u] m (fst (aexit_wait_or_finish m u g ws exc)).
 Proof.
@@ -1487,13 +1604,13 @@ Proof.
     + pose proof (WQ_exit m w u None) as K1. destruct (scope_exit m w u None) as [s1 x]. cbn [fst] in K1.
       destruct x.
       * pose proof (WQ_aexit_finish s1 u g exc) as K2. destruct (aexit_finish s1 u g exc) as [s2 r]. cbn [fst] in K2.
-        apply WQE_ret_after. now apply (WQ_trans [u] m s1).
+        apply WQE_ret_after; [now left|]. now apply (WQ_trans [u] m s1).
       * pose proof (WQ_aexit_finish s1 u g exc) as K2. destruct (aexit_finish s1 u g exc) as [s2 r]. cbn [fst] in K2.
-        apply WQE_ret_after. now apply (WQ_trans [u] m s1).
+        apply WQE_ret_after; [now left|]. now apply (WQ_trans [u] m s1).
       * pose proof (WQ_aexit_raise s1 u g e) as K2. destruct (aexit_raise s1 u g e) as [s2 r]. cbn [fst] in K2.
-        apply WQE_ret_after. now apply (WQ_trans [u] m s1).
+        apply WQE_ret_after; [now left|]. now apply (WQ_trans [u] m s1).
     + pose proof (WQ_aexit_finish m u g exc) as K2. destruct (aexit_finish m u g exc) as [s2 r]. cbn [fst] in K2.
-      now apply WQE_ret_after.
+      apply WQE_ret_after; [now left|exact K2].
   - assert (Tail : forall a w, WQ [u] m a ->
               WQE [u] m (fst (let '(s1, f) := new_fut a in
                         blocked (set_ctl (suspend_on (upd_group s1 g (gr_fut (Some f))) u f) u (CAexitWait g w exc))))).
@@ -1502,7 +1619,7 @@ Proof.
       - apply (WQ_trans [u] m a); [exact Ha|].
         match goal with |- _ (upd_group ?b g ?h) => apply (WQ_trans [u] a b) end;
           [apply WT_WQ, (WT_new_fut [u] a)|apply WT_WQ, WT_upd_group; intros k; reflexivity].
-      - apply WT_WQ, WT_suspend_fresh; [cbn; unfold upd; now rewrite Nat.eqb_refl|cbn; lia]. }
+      - apply WT_WQ, WT_suspend_fresh; [now left|cbn; unfold upd; now rewrite Nat.eqb_refl|cbn; lia]. }
     destruct ws as [w|].
     + apply Tail. apply W_refl.
     + cbn [fst]. unfold new_scope. cbv zeta. cbn [fst]. apply Tail. apply WT_WQ. now apply WT_new_enter.
@@ -1565,6 +1682,7 @@ Proof.
   - intros _ _ t org _ H. left. revert H. apply held_eq; [now rewrite Et|exact Ef].
   - intros _ v Hv. now rewrite Er.
   - intros _ v _ org. apply held_eq; [now rewrite Et|exact Ef].
+  - intros _ t _. apply nheld_eq; [now rewrite Et|exact Ef].
 Qed.
 
 (* ---------------- API calls ---------------- *)
@@ -1599,7 +1717,7 @@ Proof.
   intros T Ka Hr Hu Hapi HG HI HE. unfold puppet_op.
   set (U := u :: uo a o).
   assert (I1 : incl [u] U) by apply incl_one.
-  assert (K0 : WQ U a (begin_act a u)) by now apply WT_WQ, WT_begin_act.
+  assert (K0 : WQ U a (begin_act a u)) by (apply WT_WQ, WT_begin_act; [now left|exact Hr]).
   set (s := begin_act a u) in *.
   assert (Ts : TO s) by (apply (w_to _ _ _ _ _ _ _ K0), T).
   assert (Ks : KInv s) by (apply (w_k _ _ _ _ _ _ _ K0), Ka).
@@ -1610,7 +1728,7 @@ Proof.
     [|split; [apply (WFE_l U a s _ K0 Body)|
               intros org Hh; apply (held_begin_act a u u org); apply (w_own _ _ _ _ _ _ _ Body Ks u Rs org Hh)]].
   assert (Q : forall s1 r, WF U s s1 -> WFE U s (fst (ret_to_puppet s1 u r))).
-  { intros s1 r H. apply (WFE_r U s s1); [exact H|apply WTE_WQE, WTE_ret]. }
+  { intros s1 r H. apply (WFE_r U s s1); [exact H|apply WTE_WQE, WTE_ret; now left]. }
   assert (B : forall s1 c, WF U s s1 -> WFE U s (fst (blocked (set_ctl s1 u c)))).
   { intros s1 c H. apply (WFE_r U s s1); [exact H|apply WQE_block, W_refl]. }
   assert (En : forall c, (s_active (scopes a c) = false -> c < nscope a) -> s_active (scopes s c) = false -> Enterable s c u).
@@ -1691,7 +1809,7 @@ Proof.
       destruct (spawn_task m1 g sf) as [s2 c] end.
     cbn [fst] in *.
     apply B. apply WQ_WF.
-    apply (WQ_trans _ s s2); [|apply WT_WQ; now apply WT_suspend_fresh].
+    apply (WQ_trans _ s s2); [|apply WT_WQ; apply WT_suspend_fresh; [now left|exact Ef|exact Hn]].
     apply (WQ_trans _ s m1); [now apply WT_WQ|].
     apply (W_incl _ _ _ _ [ntask m1]); [|exact H]. intros x [<-|[]]. right. now left.
   - (* AStarted *)
@@ -1700,7 +1818,7 @@ Proof.
   - (* AHandleCancel *)
     destruct (e_set _); apply Q; [apply W_refl|]. apply WC_WF, WC_scope_cancel.
   - (* AHandleWait *)
-    pose proof (WT_event_wait [u] s u (k_hevent (tasks s h))) as H.
+    pose proof (WT_event_wait [u] s u (k_hevent (tasks s h)) (or_introl eq_refl)) as H.
     destruct (event_wait s u (k_hevent (tasks s h))) as [s1 f]. cbn [fst] in H. apply B. now apply WT_WF.
   - apply B. apply WT_WF, WT_bare_yield.
   - destruct (ckif_spins _ _ _); [apply B, WT_WF, WT_bare_yield|apply Q, W_refl].
@@ -1716,19 +1834,19 @@ Proof.
         apply B; apply WT_WF; apply (WT_trans [u] s m) end.
       * match goal with |- _ s ?m => apply (WT_trans [u] s (fst (new_fut s))) end; [apply WT_new_fut|].
         apply WT_other; reflexivity.
-      * apply WT_suspend_fresh; [cbn; unfold upd; now rewrite Nat.eqb_refl|cbn; lia].
+      * apply WT_suspend_fresh; [now left|cbn; unfold upd; now rewrite Nat.eqb_refl|cbn; lia].
     + cbn [fst].
       match goal with |- _ (fst (blocked (set_ctl (suspend_on ?m u ?f) u ?c0))) =>
         apply B; apply WT_WF; apply (WT_trans [u] s m) end.
       * apply (WT_new_fut [u] s).
-      * apply WT_suspend_fresh; [cbn; unfold upd; now rewrite Nat.eqb_refl|cbn; lia].
+      * apply WT_suspend_fresh; [now left|cbn; unfold upd; now rewrite Nat.eqb_refl|cbn; lia].
   - apply Q. apply WT_WF, WT_upd_task; intros k; reflexivity.
   - apply Q. apply WT_WF, WT_upd_task; intros k; reflexivity.
   - apply Q. apply WT_WF, WT_upd_task; intros k; reflexivity.
   - apply Q. apply WT_WF, WT_task_uncancel.
   - (* AEffDeadline *)
     cbn [fst]. apply (WFE_r [u] s (park s u)); [|apply WTE_WQE, WTE_set_running].
-    apply WT_WF, WT_park.
+    apply WT_WF, WT_park. now left.
   - (* AFailAt *)
     unfold new_scope. cbv zeta.
     set (m1 := mkSt (tasks s) (ntask s) (upd (scopes s) (nscope s) (sc_shield sh (sc_deadline d scope0))) (S (nscope s))
@@ -1743,7 +1861,7 @@ Qed.
 Lemma WQE_puppet_finish a u v : running a = None -> WQE [u] a (fst (puppet_finish a u v)).
 Proof.
   intros Hr. unfold puppet_finish.
-  assert (K0 : WQ [u] a (begin_act a u)) by now apply WT_WQ, WT_begin_act.
+  assert (K0 : WQ [u] a (begin_act a u)) by (apply WT_WQ, WT_begin_act; [now left|exact Hr]).
   set (s := begin_act a u) in *.
   set (raw := match k_held (tasks s u) with Some e => OExc e | None => ORet v end).
   set (s1 := upd_task s u (tk_final (Some raw))).
@@ -1758,8 +1876,8 @@ Proof.
     pose proof (WQ_exit s3 (k_hscope (tasks s u)) u (k_held (tasks s u))) as H4.
     destruct (scope_exit s3 (k_hscope (tasks s u)) u (k_held (tasks s u))) as [s4 x]. cbn [fst] in H4.
     assert (H5 : WQ [u] a s4) by now apply (WQ_trans [u] a s3).
-    destruct x; cbn [fst]; (apply (WQE_l [u] a s4); [exact H5|apply WTE_WQE, WTE_finish_task]).
-  - apply (WQE_l [u] a s1); [exact H1|apply WTE_WQE, WTE_finish_task].
+    destruct x; cbn [fst]; (apply (WQE_l [u] a s4); [exact H5|apply WTE_WQE, WTE_finish_task; now left]).
+  - apply (WQE_l [u] a s1); [exact H1|apply WTE_WQE, WTE_finish_task; now left].
 Qed.
 
 Lemma WFE_resume a u fo :
@@ -1771,7 +1889,7 @@ Lemma WFE_resume a u fo :
   (k_ctl (tasks a u) <> CDone -> forall org, ~ Held (fst (resume a u fo)) u org).
 Proof.
   intros T Ka Hr Hu Hh HI. unfold resume.
-  pose proof (WT_incoming [u] a u fo Hr) as K0.
+  pose proof (WT_incoming [u] a u fo (or_introl eq_refl) Hr) as K0.
   assert (Ec : k_ctl (tasks (fst (incoming a u fo)) u) = k_ctl (tasks a u)) by apply incoming_ctl.
   assert (Ecs : k_cur (tasks (fst (incoming a u fo)) u) = k_cur (tasks a u)).
   { cbn. unfold upd. now rewrite Nat.eqb_refl. }
@@ -1792,7 +1910,7 @@ Proof.
   { intros X P Body. split; [apply (WFE_l [u] a s _ K0 Body)|]. intros _ org Hx.
     pose proof (w_own _ _ _ _ _ _ _ Body Ks u Rsu org Hx) as H0. apply (Hs0 org H0). }
   assert (Q : forall s1 r, WF [u] s s1 -> WFE [u] s (fst (ret_to_puppet s1 u r))).
-  { intros s1 r H. apply (WFE_r [u] s s1); [exact H|apply WTE_WQE, WTE_ret]. }
+  { intros s1 r H. apply (WFE_r [u] s s1); [exact H|apply WTE_WQE, WTE_ret; now left]. }
   assert (Qq : forall s1 r, WQ [u] s s1 -> WFE [u] s (fst (ret_to_puppet s1 u r))).
   { intros s1 r H. apply Q. now apply WQ_WF. }
   assert (Wf : forall g s1 ws exc, WF [u] s s1 -> u < ntask a -> WFE [u] s (fst (aexit_wait_or_finish s1 u g ws exc))).
@@ -1807,7 +1925,7 @@ Proof.
     set (s1 := upd_task s u (tk_started true)).
     assert (H1 : WT [u] s s1) by (apply WT_upd_task; intros k; reflexivity).
     destruct inc as [e|]; cbn [fst].
-    + apply (WFE_r [u] s s1); [apply WT_WF, H1|apply WTE_WQE, WTE_finish_task].
+    + apply (WFE_r [u] s s1); [apply WT_WF, H1|apply WTE_WQE, WTE_finish_task; now left].
     + set (s2 := match k_group (tasks s1 u) with Some _ => fst (scope_enter s1 (k_hscope (tasks s1 u)) u) | None => s1 end).
       assert (H2 : WC [u] s s2).
       { unfold s2. destruct (k_group (tasks s1 u)); [|now apply WT_WC].
@@ -1821,12 +1939,12 @@ Proof.
         - change (nscope s1) with (nscope s). rewrite Ens. now apply Hh.
         - change (ntask s1) with (ntask s). now rewrite Ent. }
       apply (WFE_r [u] s (park s2 u)); [|apply WTE_WQE, WTE_set_running].
-      apply WC_WF. apply (WC_trans_cq [u] s s2 _ H2). apply WT_WQ, WT_park.
+      apply WC_WF. apply (WC_trans_cq [u] s s2 _ H2). apply WT_WQ, WT_park. now left.
   - (* CIdle *)
     cbn [fst]. set (s1 := match inc with Some e => upd_task s u (tk_held (Some e)) | None => s end).
     assert (H1 : WT [u] s s1) by (unfold s1; destruct inc; [apply WT_upd_task; intros k; reflexivity|apply W_refl]).
     apply (WFE_r [u] s (park s1 u)); [|apply WTE_WQE, WTE_set_running].
-    apply WT_WF. apply (WT_trans [u] s s1 _ H1). apply WT_park.
+    apply WT_WF. apply (WT_trans [u] s s1 _ H1). apply WT_park. now left.
   - (* CYield *)
     destruct k as [| |c].
     + apply Qq, W_refl.
@@ -1868,7 +1986,7 @@ Proof.
       unfold new_scope. cbv zeta. cbn [fst].
       match goal with |- context [event_wait ?m u ?ev] =>
         assert (H3 : WC [u] s m) by (apply (WC_trans_cq [u] s s1 _ H1); apply WT_WQ; now apply WT_new_enter);
-        pose proof (WT_event_wait [u] m u ev) as H4; destruct (event_wait m u ev) as [s4 wf] end.
+        pose proof (WT_event_wait [u] m u ev (or_introl eq_refl)) as H4; destruct (event_wait m u ev) as [s4 wf] end.
       cbn [fst] in H4. apply Bk. apply WC_WF. apply (WC_trans_cq [u] s _ _ H3). now apply WT_WQ.
     + destruct (f_st (futs s f)); apply Qq, W_refl.
   - (* CStartJoin *)
@@ -1915,6 +2033,7 @@ Proof.
   - intros _ _ t org _ Hh. left. now apply Hs.
   - intros _ v Hv. exact Hv.
   - intros _ v _ org. apply Hs.
+  - intros _ t Ht. apply nheld_eq; [|reflexivity]. apply Xk. intros ->. apply Ht. now left.
 Qed.
 
 Definition pop (s : st) (h : handle) : st := set_ready s (remove_first h (ready s)).
@@ -1955,7 +2074,7 @@ Proof.
     + (* ANewRoot *)
       unfold new_root. cbn [fst]. fold (root_struct a).
       apply WQE_WFE. apply (WQE_l _ a (park (root_struct a) (ntask a))); [|apply WTE_WQE, WTE_set_running].
-      apply WT_WQ. apply (WT_trans _ a (root_struct a)); [apply WT_root_struct|apply WT_park].
+      apply WT_WQ. apply (WT_trans _ a (root_struct a)); [apply WT_root_struct|apply WT_park; now left].
     + (* ANativeCancel *) cbn [fst]. apply WF_WFE, WT_WF, WT_task_cancel_native.
     + (* AExtCancel *)
       cbn [fst]. apply (WFE_r [] a (scope_cancel (set_running a None) c false)); [|apply WTE_WQE, WTE_set_running].
@@ -2091,7 +2210,7 @@ Proof.
   assert (Es : fst (step a o) = fst (puppet_op a u o)).
   { unfold step. destruct Ho as [-> | ->]; cbn [actor]; now rewrite Hi. }
   rewrite Es. unfold puppet_op.
-  pose proof (WT_begin_act [u] a u Hr) as K0. set (s := begin_act a u) in *.
+  pose proof (WT_begin_act [u] a u (or_introl eq_refl) Hr) as K0. set (s := begin_act a u) in *.
   assert (Ts : TO s) by (apply (w_to _ _ _ _ _ _ _ K0), T).
   assert (Ks : KInv s) by (apply (w_k _ _ _ _ _ _ _ K0), Ka).
   assert (Hne : ntask a <> u) by lia.
@@ -2105,7 +2224,7 @@ Proof.
     + exact Hne.
     + unfold X, spawn_struct. cbn. unfold upd. now rewrite Nat.eqb_refl.
     + unfold X, spawn_struct. cbn. unfold upd. now rewrite Nat.eqb_refl.
-    + apply WQE_ret_after. apply (WQ_trans [u] X (restart X (Some (g_scope (groups s g))))); [apply WQ_restart|apply WT_WQ, WT_call_soon].
+    + apply WQE_ret_after; [now left|]. apply (WQ_trans [u] X (restart X (Some (g_scope (groups s g))))); [apply WQ_restart|apply WT_WQ, WT_call_soon].
   - unfold new_fut. cbv zeta.
     set (m1 := mkSt (tasks s) (ntask s) (scopes s) (nscope s) (groups s) (ngroup s) (upd (futs s) (nfut s) fut0) (S (nfut s))
                     (events s) (nevent s) (ready s) (timers s) (ntimer s) (now s) (running s)).
@@ -2129,7 +2248,7 @@ Proof.
     + apply WQE_block.
       match goal with |- _ (suspend_on ?s2 u ?f) => apply (WQ_trans [u] X s2) end.
       * apply (WQ_trans [u] X (restart X (Some (g_scope (groups m1 g))))); [apply WQ_restart|apply WT_WQ, WT_call_soon].
-      * apply WT_WQ, WT_suspend_fresh; [exact Ef|exact Hn].
+      * apply WT_WQ, WT_suspend_fresh; [now left|exact Ef|exact Hn].
 Qed.
 
 Theorem root_step a org : ~ Held (fst (step a ANewRoot)) (ntask a) org.
